@@ -925,7 +925,15 @@ class CallsMixin:
                 st.heap.set(kh, z3.Store(has, x.term, z3.K(I, z3.BoolVal(False))))
                 st.heap.set(kl, z3.Store(ln, x.term, z3.IntVal(0)))
                 return None
-            raise OutOfSubset('clear of slice')
+            if types.kind(x.t) == 'slice':
+                # clear(s) zeroes the elements: modelled as unknown new contents of exactly that
+                # range (weaker than "all zero", sound for everything proved afterwards)
+                from .instrs import ModTarget
+                et = types.elem(x.t)
+                t = ModTarget('range', sl=x, arr=x.arr, tk=st.elems_tk(et), lo=x.lv[('o',)], hi=x.lv[('o',)] + x.lv[('l',)])
+                self.havoc_target(st, t, 'clear')
+                return None
+            raise OutOfSubset('clear of ' + types.kind(x.t))
         if name == 'copy':
             return self.builtin_copy(st, fr, ins, args)
         if name == 'append':
